@@ -158,18 +158,22 @@ func (p *parser) continuation(node Node, prec int) (Node, error) {
 				}
 
 				if node == nil {
-					node = &SelectArraySingleCurrentNode{
-						Field: ObjectValuesCurrentNode{},
-					}
-				} else {
-					node = &SelectArraySingleNode{
-						Child: node,
-						Field: ObjectValuesCurrentNode{},
-					}
+					node = CurrentNode{}
+				}
+
+				node = &SelectArraySingleNode{
+					Child: node,
+					Field: ObjectValuesCurrentNode{},
 				}
 			case lexer.OpenBraceToken:
 				if err := p.advance2(); err != nil {
 					return nil, err
+				}
+
+				// A multi-select after a dot is a sub-expression of the
+				// current node, which is null for a null current node.
+				if node == nil {
+					node = CurrentNode{}
 				}
 
 				node, err = p.selectObject(node)
@@ -179,6 +183,10 @@ func (p *parser) continuation(node Node, prec int) (Node, error) {
 			case lexer.OpenSqBraceToken:
 				if err := p.advance2(); err != nil {
 					return nil, err
+				}
+
+				if node == nil {
+					node = CurrentNode{}
 				}
 
 				node, err = p.selectArray(node)
